@@ -6,17 +6,24 @@ THEOREMS = [
     "C19_newroute_pays_exact_fees", "C19_get_edge_sound",
     "C19_search_invariant_init", "C19_search_invariant", "C19_search_sound",
     "C19_chain_stable", "C19_pops_sorted", "C19_findpath_sound", "C19_findpath_route_ok",
+    # C19c: additional edges (route hints, blinded payment paths)
+    "C19_blinded_findpath_route_ok", "C19_blinded_min_enforced", "C19_blinded_intro_paid",
+    "C19_newroute_strip_dummy", "C19_unblind_backfill",
+    "C19_blinded_max_refuted", "C19_blinded_aggregate_fee_refuted",
 ]
 MODULE = "LV.Route.Props"
 TARGETS = ["theories/Route/Props.vo", "theories/Route/Exec.vo",
            "theories/Route/Examples.vo", "theories/Route/DijkstraExec.vo",
-           "theories/Route/DijkstraExamples.vo"]
-HARNESS = ["routing/verif_route_test.go"]
+           "theories/Route/DijkstraExamples.vo", "theories/Route/BlindedExec.vo",
+           "theories/Route/BlindedExamples.vo"]
+HARNESS = ["routing/verif_route_test.go", "routing/verif_blinded_test.go"]
 WARM = [{"pkg": "routing", "files": HARNESS}]
 IMPORTS = ("From Coq Require Import List ZArith NArith.\nImport ListNotations.\n"
            "From LV Require Import Route.Model Route.Exec.\n")
 SIMPORTS = ("From Coq Require Import List ZArith NArith.\nImport ListNotations.\n"
             "From LV Require Import Route.Model Route.Exec Route.DijkstraExec.\n")
+BIMPORTS = ("From Coq Require Import List ZArith NArith.\nImport ListNotations.\n"
+            "From LV Require Import Route.Model Route.Exec Route.Blinded Route.BlindedExec.\n")
 MAX_PAYLOAD = 1300
 SUBCHECK = {0: "route_valid rejects the returned route",
             1: "model new_route differs from the returned route",
@@ -27,7 +34,10 @@ SUBCHECK = {0: "route_valid rejects the returned route",
             6: "edgeUnifier.getEdge differs from the model",
             7: "search replay: an observed event is not a possible step of the Dijkstra model",
             8: "search replay: end of the search / unravelled chain differs from what findPath returned",
-            9: "search replay: a domain guard, key monotonicity or pop order failed on an observed step"}
+            9: "search replay: a domain guard, key monotonicity or pop order failed on an observed step",
+            10: "blinded: ToRouteHints differs from the model (policy fields incl. HasMaxHTLC, order, NUMS dummy)",
+            11: "blinded: target / final CLTV delta of the path set differ from the model",
+            12: "blinded: last-hop restriction not met by the search path"}
 
 
 def subcheck_name(i):
@@ -97,14 +107,61 @@ def scase_term(c):
             evs.append("EvPivot %s" % zt(e[1]))
         else:
             evs.append("EvProbe %s %s %s %s %s" % tuple(zt(x) for x in e[1:6]))
-    if c["kind"] == "route":
+    if c["kind"] in ("route", "broute"):
         res = "(Some %s)" % clist([edge_term(e) for e in c["path"]])
     else:
         res = "None"
-    return "SCase %s %s %s %s %s %s %s %s %s %s %s %s" % (
+    return "SCase %s %s %s %s %s %s %s %s %s %s %s %s %s" % (
         clist([edge_term(e) for e in c["edges"]]), zlist(c.get("hintchans") or []),
         env_term(c), restr_term(c), zt(c["amt"]), zt(c["src"]), zt(c["dst"]),
-        zt(c["lastsize"]), zt(c["attempt"]), zt(c["minprobbits"]), clist(evs), res)
+        zt(c["lastsize"]), zt(c["attempt"]), zt(c["minprobbits"]),
+        triples(c.get("bsizes") or []), clist(evs), res)
+
+
+def triples(xs):
+    return clist(["(%s, %s, %s)" % (zt(a), zt(b), zt(d)) for a, b, d in xs])
+
+
+def bpay_term(p):
+    return "BP %s %s %s %s %s %s %s" % (
+        zt(p["intro"]), zlist(p.get("hops") or []), zt(p["base"]), zt(p["rate"]),
+        zt(p["delta"]), zt(p["min"]), zt(p["max"]))
+
+
+def bcase_term(c):
+    """Blinded row for Route/BlindedExec.v."""
+    pub = [e for e in c["edges"] if not e.get("hint")]
+    add = [e for e in c["edges"] if e.get("hint")]
+    pays = clist([bpay_term(p) for p in c["blinded"]])
+    if c["kind"] != "broute":
+        return "CBlindedNo %s %s %s %s %s" % (
+            env_term(c), zt(c["nums"]), pays, clist([edge_term(e) for e in add]), zt(c["dst"]))
+    route = "(mkRoute %s %s %s %s)" % (
+        zt(c["src"]), zt(c["totalamt"]), zt(c["totaltl"]),
+        clist(["H %s %s %s %s" % (zt(h["chan"]), zt(h["to"]), zt(h["amt"]), zt(h["tl"]))
+               for h in c["hops"]]))
+    return "CBlinded %s %s %s %s %s %s %s %s %s %s %s %s %s %s %s %s %s" % (
+        clist([edge_term(e) for e in pub]), env_term(c), restr_term(c),
+        zt(c["amt"]), zt(c["src"]), zt(c["nums"]), pays,
+        clist([edge_term(e) for e in add]), zt(c["dst"]),
+        clist([edge_term(e) for e in c["path"]]), route, zlist(c["sizes"]),
+        triples(c.get("bsizes") or []), zt(c["lastsize"]),
+        zlist(c["hopfees"]), zt(c["totfees"]), zt(c["recv"]))
+
+
+def blinded_search_view(c):
+    """The blinded row as search_predicate expects it: one hop per PATH edge
+    (dummy hop included) with the amounts that really travel (inside the blinded
+    portion the payloads are zeroed; every blinded edge but the aggregate one is
+    free, so the recipient's amount flows)."""
+    if c["kind"] != "broute":
+        return dict(c, kind="noroute")
+    amts = []
+    for i, e in enumerate(c["path"]):
+        h = c["hops"][i] if i < len(c["hops"]) else None
+        amts.append(h["amt"] if h is not None and h["amt"] != 0 else c["amt"])
+    hops = [{"to": e["to"], "amt": a} for e, a in zip(c["path"], amts)]
+    return dict(c, kind="route", hops=hops)
 
 
 def search_predicate(c):
@@ -263,6 +320,205 @@ def predicate(c):
     return bad
 
 
+# ---------------------------------------------------------------------------
+# C19c: routes that end in a blinded payment path.  Written from the property
+# text + BOLT 4 route blinding, from the BLINDED PAYMENTS AS GIVEN (row
+# "blinded"), not from the edges lnd derived from them: inside the blinded
+# portion "that channel's min/max HTLC, fee, time-lock delta" are the path's
+# aggregated relay parameters.
+
+F1_SIG = "C19 blinded:amount-above-htlc-maximum"
+
+
+def blinded_predicate(c):
+    """Returns a list of (class, text); class is the stable signature stem."""
+    bad = []
+    add = lambda k, t: bad.append((k, t))
+    hops = c["hops"]
+    if not hops:
+        return [("route", "route has no hops")]
+    pays = [dict(p, hops=p.get("hops") or []) for p in c["blinded"]]
+    n = len(hops)
+    # which blinded path does the route end in
+    nodes = [h["to"] for h in hops]
+    chosen = None
+    for pi, p in enumerate(pays):
+        seq = [p["intro"]] + list(p["hops"])
+        k = len(seq)
+        if k <= n + 1 and (nodes[n - k:] == seq if k <= n else
+                           ([c["src"]] + nodes) == seq):
+            chosen = (pi, p, n - k)          # index of the hop arriving at the intro node
+            break
+    if chosen is None:
+        return [("route", "route %s does not end in any of the blinded paths" % nodes)]
+    pi, p, ii = chosen
+    single = len(p["hops"]) == 0
+    final_delta = p["delta"] if single else 0
+    if c["finald"] != final_delta:
+        add("final-cltv", "final cltv delta used %d, blinded path demands %d" % (c["finald"], final_delta))
+    # --- payload structure of the blinded portion (newRoute's back-fill)
+    for i, h in enumerate(hops):
+        inb = i >= ii and ii >= 0 or ii < 0
+        enc, bp = c["hopenc"][i], c["hopbp"][i]
+        if not inb:
+            if enc[2] != -1 or bp != -1 or c["hoptotal"][i] != 0:
+                add("backfill", "hop %d outside the blinded portion carries blinded fields" % i)
+            continue
+        j = i - ii if ii >= 0 else i + 1
+        if enc[0] != pi or enc[1] != j or enc[2] != max(2, p["ctlens"][j]):
+            add("backfill", "hop %d carries encrypted data %s, expected path %d hop %d" % (i, enc, pi, j))
+        if (bp != -1) != (j == 0) or (j == 0 and bp != pi):
+            add("backfill", "hop %d blinding point %s" % (i, bp))
+        if i < n - 1:
+            if h["amt"] != 0 or h["tl"] != 0 or c["hoptotal"][i] != 0:
+                add("backfill", "intermediate blinded hop %d has amt %d tl %d" % (i, h["amt"], h["tl"]))
+        if c["hopmpp"][i]:
+            add("backfill", "blinded hop %d carries an MPP/AMP record" % i)
+    last = hops[-1]
+    if last["amt"] != c["amt"]:
+        add("final", "receiver amount %d != payment amount %d" % (last["amt"], c["amt"]))
+    if c["hoptotal"][-1] != c["total"]:
+        add("final", "final hop total_amount_msat %d != %d" % (c["hoptotal"][-1], c["total"]))
+    if last["tl"] != c["height"] + final_delta:
+        add("final", "final expiry %d != height %d + final delta %d" % (last["tl"], c["height"], final_delta))
+    # --- amounts / expiries that really travel: inside the blinded portion
+    # every node is paid out of the aggregate, the recipient gets amt at the
+    # final expiry
+    pub = {}
+    for e in c["edges"]:
+        if not e.get("hint"):
+            pub[(e["chan"], e["from"], e["to"])] = e
+    hints = {k: v for k, v in c["hints"]}
+    carried = [c["totalamt"]] + [h["amt"] for h in hops[:-1]]
+    expiry = [c["totaltl"]] + [h["tl"] for h in hops[:-1]]
+    prev = c["src"]
+    es = []
+    for i in range(0, ii + 1):
+        h = hops[i]
+        e = pub.get((h["chan"], prev, h["to"]))
+        if e is None:
+            return bad + [("route", "hop %d: no policy for channel %d from node %d to node %d"
+                           % (i, h["chan"], prev, h["to"]))]
+        es.append(e)
+        prev = h["to"]
+    for i in range(ii + 1, n):
+        if hops[i]["chan"] != 0:
+            add("route", "blinded hop %d names channel %d" % (i, hops[i]["chan"]))
+    for i, e in enumerate(es):
+        a = carried[i]
+        tag = "hop %d chan %d" % (i, e["chan"])
+        if e["from"] in c["ignnodes"]:
+            add("restr", tag + ": leaves ignored node %d" % e["from"])
+        if [e["from"], e["to"]] in c["ignpairs"]:
+            add("restr", tag + ": uses ignored pair")
+        if a < e["min"]:
+            add("range", tag + ": amount %d below min_htlc %d" % (a, e["min"]))
+        if e["hasmax"] and a > e["max"]:
+            add("range", tag + ": amount %d above max_htlc %d" % (a, e["max"]))
+        if e["cap"] > 0 and a > e["cap"] * 1000:
+            add("range", tag + ": amount %d above capacity %d sat" % (a, e["cap"]))
+        if e["from"] == c["self"]:
+            if e["chan"] in hints and a > hints[e["chan"]]:
+                add("range", tag + ": amount %d above local bandwidth %d" % (a, hints[e["chan"]]))
+            if c["outchans"] and e["chan"] not in c["outchans"]:
+                add("restr", tag + ": channel not in the outgoing channel set")
+        elif e["dis"]:
+            add("range", tag + ": direction is disabled")
+    # cleartext forwarding nodes before the introduction node
+    for i in range(0, ii):
+        fwd = hops[i]["amt"]
+        o = out_fee(es[i + 1], fwd)
+        need = max(0, o + in_fee(es[i], fwd + o))
+        got = carried[i] - fwd
+        if got < need:
+            add("fee", "node %d keeps fee %d, policy demands %d" % (hops[i]["to"], got, need))
+        gap = expiry[i] - hops[i]["tl"]
+        if gap < es[i + 1]["delta"]:
+            add("delta", "node %d gets expiry gap %d, time lock delta is %d"
+                % (hops[i]["to"], gap, es[i + 1]["delta"]))
+    # --- the blinded portion
+    amt = c["amt"]
+    a_in = carried[ii] if ii >= 0 else None      # what arrives at the introduction node
+    tl_in = expiry[ii] if ii >= 0 else None
+    if amt > p["max"]:
+        add(F1_SIG, "amount %d entering the blinded path exceeds its htlc_maximum_msat %d%s"
+            % (amt, p["max"], " (introduction-node-only path)" if single else ""))
+    if amt < p["min"]:
+        add("C19 blinded:amount-below-htlc-minimum" + ("-intro-only" if single else ""),
+            "amount %d entering the blinded path is below its htlc_minimum_msat %d" % (amt, p["min"]))
+    if not single and ii >= 0:
+        agg = p["base"] + (amt * p["rate"]) // 1000000
+        got = a_in - amt
+        need_node = max(0, agg + in_fee(es[ii], amt + agg))
+        if got < need_node:
+            add("fee", "introduction node keeps %d, aggregate+inbound policy demands %d" % (got, need_node))
+        elif got < agg:
+            add("C19 blinded:inbound-discount-cuts-aggregate-fee",
+                "blinded path is left %d, its aggregated fee is %d (inbound discount of the "
+                "introduction node's incoming channel subtracted from the whole path's fee)" % (got, agg))
+        if tl_in - last["tl"] < p["delta"]:
+            add("delta", "blinded path gets expiry gap %d, its cltv_expiry_delta is %d"
+                % (tl_in - last["tl"], p["delta"]))
+    if single and ii >= 0:
+        if a_in != amt or tl_in != last["tl"]:
+            add("final", "recipient is sent %d/%d, payload says %d/%d" % (a_in, tl_in, amt, last["tl"]))
+    # --- totals and limits
+    if c["totalamt"] - amt > c["feelimit"]:
+        add("limit", "total fees %d exceed fee limit %d" % (c["totalamt"] - amt, c["feelimit"]))
+    if c["totaltl"] > c["cltvlimit"] + c["height"] + final_delta:
+        add("limit", "total time lock %d exceeds cltv limit %d (+height+final)" % (c["totaltl"], c["cltvlimit"]))
+    if c["lasthop"] >= 0:
+        # the search ends at the NUMS dummy target (resp. the introduction
+        # node of an introduction-node-only path): the node in front of it
+        want = nodes[-1] if not single else (nodes[-2] if n >= 2 else c["src"])
+        if want != c["lasthop"]:
+            add("restr", "node %d in front of the search target is not the required last hop %d"
+                % (want, c["lasthop"]))
+    if sum(c["sizes"]) > MAX_PAYLOAD or not c["sphinxok"] or c["onionsize"] > MAX_PAYLOAD:
+        add("C19 blinded:onion-payload-exceeds-1300" + ("-session" if c.get("session") else ""),
+            "onion payload %d bytes does not fit %d (findPath's estimate of the final hop: %d, real: %d)"
+            % (sum(c["sizes"]), MAX_PAYLOAD, c["lastsize"], c["sizes"][-1]))
+    if c["totalamt"] != c["recv"] + sum(c["hopfees"]) or c["totfees"] != sum(c["hopfees"]):
+        add("totals", "TotalAmount %d != receiver %d + hop fees %s" % (c["totalamt"], c["recv"], c["hopfees"]))
+    # time locks: public gaps + the blinded gap add up
+    gaps = [expiry[i] - hops[i]["tl"] for i in range(0, max(ii, 0))]
+    if ii >= 0:
+        gaps.append(tl_in - last["tl"])
+    if c["totaltl"] != c["height"] + final_delta + sum(gaps):
+        add("totals", "time locks do not add up to TotalTimeLock")
+    return bad
+
+
+def validate_predicate(c):
+    """Set-up of a blinded payment (model independent): Validate refuses exactly
+    htlc_maximum < htlc_minimum; a path set with differing feature vectors is
+    refused; the search target is the NUMS dummy unless an introduction-node-only
+    path exists, whose cltv delta then is the final delta; a source that is an
+    introduction node is refused for foreign sources."""
+    bad = []
+    err = c.get("err") or ""
+    pays = [dict(p, hops=p.get("hops") or []) for p in c["blinded"]]
+    inval = [p for p in pays if p["max"] < p["min"]]
+    if err.startswith("validate: invalid htlc") != bool(inval):
+        bad.append("Validate: error %r but %d payments have htlc_maximum < htlc_minimum" % (err, len(inval)))
+    if inval or err.startswith(("validate", "pathset")):
+        if err.startswith("pathset: all blinded"):
+            f0 = pays[0]["feat"] in (0, 1)
+            if all((p["feat"] in (0, 1)) == f0 and (f0 or p["feat"] == pays[0]["feat"]) for p in pays):
+                bad.append("path set refused although all feature vectors agree")
+        return bad
+    single = [p for p in pays if not p["hops"]]
+    want_dst = single[0]["intro"] if single else c["nums"]
+    want_fd = single[0]["delta"] if single else 0
+    if c["dst"] != want_dst or c["finald"] != want_fd:
+        bad.append("target %d / final delta %d, expected %d / %d" % (c["dst"], c["finald"], want_dst, want_fd))
+    used = single[:1] if single else pays
+    selfintro = any(p["intro"] == c["src"] for p in used)
+    if bool(c.get("selfintro")) != selfintro:
+        bad.append("IsIntroNode(source) = %s" % c.get("selfintro"))
+    return bad
+
+
 def stats(rows):
     routes = [c for c in rows if c["kind"] == "route"]
     hist = lambda f, rs: {str(k): v for k, v in sorted(
@@ -282,7 +538,54 @@ def stats(rows):
                       (e["cap"] > 0 and a > (e["cap"] - 1) * 1000) or hints.get(e["chan"]) == a):
                 t = True
         tight += bool(t)
+    br = [c for c in rows if c["kind"] == "broute"]
+    bn = [c for c in rows if c["kind"] == "bnoroute"]
+    hr = [c for c in routes if c.get("stream") == "hint"]
+
+    def hint_hops(c):
+        hc = {e["chan"] for e in c["edges"] if e.get("hint")}
+        return sum(1 for h in c["hops"] if h["chan"] in hc)
+
+    def bl(c):
+        pays = [dict(p, hops=p.get("hops") or []) for p in c["blinded"]]
+        last = c["hops"][-1]["to"]
+        for p in pays:
+            if (p["hops"] or [p["intro"]])[-1] == last:
+                return p
+        return pays[0]
+    blinded = {
+        "rows": hist(lambda c: c["kind"] + ":" + (c.get("stream") or ""), br + bn),
+        "variants_routed": hist(lambda c: c["variant"].split("-")[0] if c.get("stream") == "blinded"
+                                else c["variant"], br),
+        "unroutable": hist(lambda c: (c.get("err") or "")[:44], bn),
+        "paths_in_set": hist(lambda c: len(c["blinded"]), br + bn),
+        "blinded_hops_of_chosen_path": hist(lambda c: len(bl(c)["hops"]), br),
+        "public_hops_before_intro": hist(lambda c: len(c["hops"]) - len(bl(c)["hops"]), br),
+        "amount_vs_htlc_maximum": hist(lambda c: "above+1" if c["amt"] == bl(c)["max"] + 1 else
+                                       "above" if c["amt"] > bl(c)["max"] else
+                                       "equal" if c["amt"] == bl(c)["max"] else "below", br),
+        "amount_vs_htlc_minimum": hist(lambda c: "below" if c["amt"] < bl(c)["min"] else
+                                       "equal" if c["amt"] == bl(c)["min"] else
+                                       "above+1" if c["amt"] == bl(c)["min"] + 1 else "above", br),
+        "noroute_with_amount_below_every_minimum": sum(
+            1 for c in bn if c.get("edges") and all(c["amt"] < p["min"] for p in c["blinded"])),
+        "mpp_partial_amount": sum(1 for c in br if c["total"] != c["amt"]),
+        "fee_limit_exactly_tight": sum(1 for c in br if c["totalamt"] - c["amt"] == c["feelimit"]),
+        "cltv_limit_exactly_tight": sum(1 for c in br if c["totaltl"] == c["cltvlimit"] + c["height"] + c["finald"]),
+        "payload_at_limit_or_above": sum(1 for c in br if sum(c["sizes"]) >= MAX_PAYLOAD - 1),
+        "with_last_hop_restriction": sum(1 for c in br + bn if c["lasthop"] >= 0),
+        "with_outgoing_chan_restriction": sum(1 for c in br + bn if c["outchans"]),
+        "session_style_restrictions": sum(1 for c in br if c.get("session")),
+        "intro_is_source": sum(1 for c in br + bn if c.get("selfintro")),
+    }
     return {
+        "blinded": blinded,
+        "hint_stream": {
+            "routes": len(hr),
+            "hint_hops_on_route": hist(hint_hops, hr),
+            "unroutable": sum(1 for c in rows if c["kind"] == "noroute" and c.get("stream") == "hint"),
+            "variants_routed": hist(lambda c: c["variant"], hr),
+        },
         "row_kinds": hist(lambda c: c["kind"], rows),
         "variants_routed": hist(lambda c: c["variant"], routes),
         "variants_unroutable": hist(lambda c: c["variant"], [c for c in rows if c["kind"] == "noroute"]),
@@ -313,6 +616,10 @@ def run(ctx):
     pr = ctx.proof_stage(MODULE, THEOREMS, TARGETS, extra_trusted=[
         "onion payload sizes are an oracle: the checker is given the byte sizes measured on the "
         "real sphinx path of the returned route",
+        "C19_blinded_*: a blinded payment path is (introduction node, blinded node ids, aggregated "
+        "base/rate/cltv delta/htlc min/max); node ids of blinded hops are taken as distinct from all "
+        "graph nodes; Route/Blinded.v mirrors toRouteHints INCLUDING HasMaxHTLC=false on the aggregate "
+        "edge (finding C19-F1: C19_blinded_max_refuted)",
         "float64 probability / getProbabilityBasedDist enter the Dijkstra theorems as the abstract "
         "structure keyops with the laws keyops_ok (on the domain [0,1]: <= reflexive and transitive, "
         "closed under *, p*e <= p, distance monotone in weight and antitone in probability) = "
@@ -333,7 +640,10 @@ def run(ctx):
         rp = json.load(open(ctx.replay))
         case = (rp.get("detail") or {}).get("case") or {}
         env["VERIF_SEED"] = str(rp.get("seed", ctx.seed))
-        if case.get("kind") == "getedge":
+        stream = case.get("stream") or ""
+        if stream in ("hint", "blinded", "directed"):
+            env["VERIF_ONLY_" + stream[0].upper()] = str(case.get("case", 0))
+        elif case.get("kind") == "getedge":
             env["VERIF_ONLY_GE"] = str(case.get("case", 0))
         elif "case" in case:
             env["VERIF_ONLY"] = str(case["case"])
@@ -356,8 +666,46 @@ def run(ctx):
                 ctx.violation("impl_violates_predicate", "C19_checker_sound",
                               {"case": c, "violated_clauses": f},
                               signature="route %s: %s" % (c["variant"], f[0]))
+    # (3c) routes that end in a blinded payment path; one violation per class
+    broutes = [c for c in rows if c["kind"] == "broute"]
+    brows = [c for c in rows if c["kind"] in ("broute", "bnoroute")]
+    bclasses = {}
+    bfail = __import__("collections").Counter()
+    for c in broutes:
+        f = blinded_predicate(c)
+        c["_classes"] = sorted({k for k, _ in f})
+        for k in c["_classes"]:
+            bfail[k] += 1
+            if k not in bclasses or (c.get("stream") == "directed"
+                                     and bclasses[k].get("stream") != "directed"):
+                bclasses[k] = c
+    for k in sorted(bclasses):
+        c = bclasses[k]
+        sig = k if k.startswith("C19 blinded:") else "blinded route %s: %s" % (c["variant"], k)
+        ctx.violation("impl_violates_predicate",
+                      "C19_blinded_max_refuted" if k.startswith(F1_SIG) else "C19_checker_sound",
+                      {"case": {x: y for x, y in c.items() if x != "_classes"},
+                       "violated_clauses": [t for kk, t in blinded_predicate(c) if kk == k],
+                       "rows_with_this_class": bfail[k]},
+                      signature=sig + (" [%s]" % c["variant"] if k.startswith("C19 blinded:") else ""))
+    nvfail = 0
+    for c in brows:
+        f = validate_predicate(c)
+        if f:
+            nvfail += 1
+            if nvfail <= 2:
+                ctx.violation("impl_violates_predicate", "C19_blinded_findpath_route_ok",
+                              {"case": c, "violated_clauses": f},
+                              signature="blinded setup %s: %s" % (c["variant"], f[0][:50]))
+    panics = [c for c in brows if "PANIC" in (c.get("err") or "")]
+    if panics:
+        ctx.note("NewBlindedPaymentPathSet panicked (nil Features of a later path while the first "
+                 "path has features, blinding.go:117) in %d generated cases, e.g. blinded case %d; "
+                 "outside C19's statement (no route is returned), recorded only" %
+                 (len(panics), panics[0]["case"]))
     # (3b) chain stability as observable on the implementation's search trace
     traced = [c for c in rows if c["kind"] in ("route", "noroute") and c.get("evs")]
+    traced += [blinded_search_view(c) for c in brows if c.get("evs")]
     nsfail = 0
     for c in traced:
         f = search_predicate(c)
@@ -373,13 +721,41 @@ def run(ctx):
     # both model evaluations (route rows; search traces, see 4b) run concurrently
     sterms = [scase_term(c) for c in traced]
     from concurrent.futures import ThreadPoolExecutor
-    with ThreadPoolExecutor(max_workers=2) as ex:
+    bchecked = [c for c in brows if c.get("edges") is not None and c.get("dst", -1) >= 0
+                and not (c.get("err") or "").startswith(("validate", "pathset", "hints"))]
+    bterms = [bcase_term(c) for c in bchecked]
+    with ThreadPoolExecutor(max_workers=3) as ex:
         f1 = ex.submit(coq_mismatches, ctx.uid(), IMPORTS, terms, scope="Z_scope",
                        shard=max(40, len(terms) // NCPU + 1))
         f2 = ex.submit(coq_mismatches, ctx.uid() + "s", SIMPORTS, sterms, scope="Z_scope",
                        mism="smismatches", shard=max(40, len(sterms) // NCPU + 1))
+        f3 = ex.submit(coq_mismatches, ctx.uid() + "b", BIMPORTS, bterms, scope="Z_scope",
+                       mism="bmismatches", shard=max(40, len(bterms) // NCPU + 1))
         ok, bad, logs = f1.result()
         sok, sbad, slogs = f2.result()
+        bok, bbad, blogs = f3.result()
+    if not bok:
+        ctx.violation("correspondence_mismatch", "Route.BlindedExec (model evaluation failed)",
+                      {"logs": blogs}, signature="blinded-model-eval", failing_input=False)
+    seen_b = set()
+    for ci, sub in bbad:
+        c = bchecked[ci]
+        # a row on which the predicate already reports a finding class and
+        # whose only model complaint is the checker (0) is the same finding
+        cls = [k for k in c.get("_classes", []) if k.startswith("C19 blinded:")]
+        if list(sub) == [0] and cls:
+            sig = cls[0] + " (model checker) [%s]" % c["variant"]
+            key = cls[0]
+        else:
+            sig = "blinded mismatch " + ",".join(str(i) for i in sub)
+            key = sig
+        if key in seen_b or len(seen_b) >= 4:
+            continue
+        seen_b.add(key)
+        ctx.violation("correspondence_mismatch", "Route.BlindedExec.check_bcase",
+                      {"case": {x: y for x, y in c.items() if x != "_classes"},
+                       "failed_subchecks": {str(i): SUBCHECK.get(i, "?") for i in sub}},
+                      signature=sig, failing_input=True)
     if not ok:
         ctx.violation("correspondence_mismatch", "Route.Exec (model evaluation failed)",
                       {"logs": logs}, signature="model-eval", failing_input=False)
@@ -418,6 +794,10 @@ def run(ctx):
         "routes_returned": len(routes),
         "traces_validated_against_impl": len(checked),
         "predicate_failures": nfail,
+        "blinded_routes": len(broutes),
+        "blinded_rows_checked_against_model": len(bchecked),
+        "blinded_predicate_classes": dict(bfail),
+        "blinded_correspondence_mismatches": len(bbad),
         "correspondence_mismatches": len(bad),
         "search_traces_replayed": len(traced),
         "search_traces_without_route": sum(1 for c in traced if c["kind"] == "noroute"),
@@ -436,7 +816,10 @@ def run(ctx):
     ctx.cov.update(st)
     ctx.assumptions += [
         "amounts < 2^63 and fee products < 2^64 (generator domain): Go wrap-around is not modelled",
-        "blinded tails are not generated (route hints, self-payments, source != self are)",
+        "blinded payment paths: the encrypted data itself, the blinding points and the feature "
+        "vectors are opaque (only their lengths / identities are compared); payload sizes of blinded "
+        "hops are oracle values measured on the real code; the last-hop restriction is read as lnd "
+        "applies it (to the node in front of the NUMS dummy target)",
         "C19_chain_stable / C19_findpath_sound hold under the domain guards stated in the theorems "
         "(probability source answers in [0,1]; amountToSend*delta*15 and the accumulated weight "
         "< 2^63; unsigned policy fields) and under keyops_ok = monotonicity of the IEEE-754 float64 "
